@@ -78,6 +78,7 @@ class _StdApi:
         self.xcode = xcode
 
         self.opc = opc = get_opcode_module(python_version, variant)
+        api_opc = opc
         self.python_version_tuple = opc.version_tuple
         self.is_pypy = variant == PYPY
         self.is_graal = variant == GRAAL
@@ -108,7 +109,9 @@ class _StdApi:
 
             def __init__(self, x, first_line=None, current_offset=None, opc=None):
                 if opc is None:
-                    opc = _std_api.opc
+                    # Use the opcodes of the version this API object was
+                    # made for, not those of the running interpreter.
+                    opc = api_opc
                 _Bytecode.__init__(
                     self,
                     x,
